@@ -141,25 +141,26 @@ theorem mem_findFramePairs (gt : Labels G) (pr : Labels P) (a : LFrame G) (b : L
 /-- perfect label pairs, frame level: each frame is the gt of itself mapped through `pred` -/
 theorem processFrames_perfect {R : Type} [Field R] [LinearOrder R] [IsStrictOrderedRing R]
     (oks : G → P → Option R) (score : P → R) (pred : G → P) (thr one : R) (hthr : thr < one)
-    (hself : ∀ g, oks g (pred g) = some one)
-    (hdist : ∀ g g' w, g' ≠ g → oks g' (pred g) = some w → w < one) :
-    ∀ fs : List (Frame G P), (∀ f ∈ fs, f.gts.Nodup ∧ f.prs = some (f.gts.map pred)) →
+    :
+    ∀ fs : List (Frame G P), (∀ f ∈ fs, f.gts.Nodup ∧ f.prs = some (f.gts.map pred) ∧
+        (∀ g ∈ f.gts, oks g (pred g) = some one) ∧
+        (∀ g ∈ f.gts, ∀ g' ∈ f.gts, ∀ w, g' ≠ g → oks g' (pred g) = some w → w < one)) →
       (processFrames oks score thr fs).2 = [] ∧
       (∀ x ∈ (processFrames oks score thr fs).1, x.2.2 = one ∧ x.2.1 = pred x.1) ∧
       (processFrames oks score thr fs).1.length = (fs.map (fun f => f.gts.length)).sum
   | [], _ => ⟨rfl, by simp [processFrames], rfl⟩
   | ⟨gts, prs⟩ :: fs, h => by
-    obtain ⟨hnd, hprs⟩ := h ⟨gts, prs⟩ List.mem_cons_self
-    simp only at hnd hprs
+    obtain ⟨hnd, hprs, hself, hdist⟩ := h ⟨gts, prs⟩ List.mem_cons_self
+    simp only at hnd hprs hself hdist
     subst hprs
-    obtain ⟨ih1, ih2, ih3⟩ := processFrames_perfect oks score pred thr one hthr hself hdist fs
+    obtain ⟨ih1, ih2, ih3⟩ := processFrames_perfect oks score pred thr one hthr fs
       (fun f hf => h f (List.mem_cons_of_mem _ hf))
     rw [processFrames_cons_some]
     have hm : matchInstances oks score thr gts (gts.map pred) =
         ((sortDesc (score ∘ pred) gts).map (fun g => (g, pred g, one)), []) := by
       unfold matchInstances
       rw [sortDesc_map]
-      exact matchLoop_perfect oks pred thr one hthr hself hdist _ gts (sortDesc_perm _ gts) hnd
+      exact matchLoop_perfect oks pred thr one hthr gts hself hdist _ gts (sortDesc_perm _ gts) hnd (fun x hx => hx)
     rw [hm]
     refine ⟨by simp [ih1], ?_, ?_⟩
     · intro x hx
